@@ -133,3 +133,13 @@ Definition c18_check (c : c18_case) : bool :=
 (* the property's own statement on the observed run: nothing blocked for 5 s, and the maker ended with the refund *)
 Definition c18_monitor (c : c18_case) : bool :=
   o_completed c && String.eqb (o_final c) "State_ClaimedCsv" && N.leb 1 (o_csv_spends c) && negb (o_active c).
+
+(* ---------- block dispatcher of the RPC watcher (psh c18disp) ----------
+   A confirmation callback of some swap runs for [slow_ms]; blocks keep arriving every [block_ms]; another swap's
+   output matures [csv] blocks after it was mined.  Observed: the confirmation and the CSV notification arrived. *)
+Record c18d_case := mkC18D {
+  cd_slow_ms : Z; cd_csv : Z; cd_block_ms : Z; cd_nslow : Z; cd_conf_seen : bool; cd_csv_seen : bool }.
+
+Definition c18d_check (c : c18d_case) : bool := true.
+(* handling chain notifications never blocks for ever: the CSV notification of the other swap is delivered *)
+Definition c18d_monitor (c : c18d_case) : bool := cd_conf_seen c && cd_csv_seen c.
